@@ -16,6 +16,7 @@ import (
 	"os"
 	"strings"
 	"sync"
+	"syscall"
 	"time"
 
 	"github.com/miscreant/miscreant.go"
@@ -101,7 +102,7 @@ func errClass(err error) int64 {
 		{"does not contain a unique identifier", 8}, {"does not contain an authenticator", 9},
 		{"unexpected response ID", 10}, {"unexpected nonce length", 12},
 		{"unexpected type or structure", 14}, {"unexpected response structure", 15},
-		{"unexpected system clock behavior", 18}, {"no successful measurement", 19},
+		{"unexpected system clock behavior", 18}, {"no successful measurement", 19}, {"invalid authenticator", 17},
 	} {
 		if strings.Contains(m, p.s) {
 			return p.c
@@ -129,6 +130,8 @@ type opSpec struct {
 
 type histSpec struct {
 	imode, nts, deadline bool
+	auth                 bool // SCION: Auth.Enabled (packet authenticator, DRKey)
+	sameIA               bool // SCION: the server is in the client's ISD-AS
 	ops                  []opSpec
 }
 
@@ -444,6 +447,7 @@ func (w *worker) emit(h histSpec, calls []*callObs, kind string) {
 				}
 			}
 			var evs []string
+			nbad := 0
 			for i, d := range rq.sent {
 				src := addrNum(w.addrA)
 				if !d.fromServer {
@@ -453,8 +457,22 @@ func (w *worker) emit(h histSpec, calls []*callObs, kind string) {
 				if scion {
 					front = d.front
 				}
+				// the packet authenticator clause: the client holds the host-host key and the datagram carries
+				// an authenticator for the server's SPI and algorithm whose MAC does not verify
+				spaoOK := !(scion && h.auth && d.vi.e2e && d.vi.auth == 2)
 				evs = append(evs, lib.L("0", "1", "0", front, lib.B(d.payload), lib.I(crx.UnixNano()),
-					lib.Bool(d.fromServer), lib.Bool(d.uidOK), lib.Bool(d.authOK), bl(d.cookies)))
+					lib.Bool(d.fromServer), lib.Bool(d.uidOK), lib.Bool(d.authOK), bl(d.cookies), lib.Bool(spaoOK)))
+				if scion && i < len(rq.recipes) {
+					if d.vi.e2e {
+						tags[fmt.Sprintf("spao%d", d.vi.auth)] = true
+					}
+					if d.vi.ts >= 0 {
+						tags["tsopt"] = true
+					}
+					if i < 2 && !spaoOK && nbad == i {
+						nbad++
+					}
+				}
 				if len(d.cookies) > 1 {
 					tags["cookies>1"] = true
 				}
@@ -463,8 +481,13 @@ func (w *worker) emit(h histSpec, calls []*callObs, kind string) {
 					table = append(table, lib.L(lib.B(e.key), lib.B(e.nonce), lib.B(e.ad), lib.B(e.ct), lib.Bool(e.ok), lib.B(e.pt)))
 				}
 				if i < len(rq.recipes) {
-					tags[fmt.Sprintf("k%d", rq.recipes[i].kind)] = true
-					if rq.recipes[i].kind > 1 || (rq.recipes[i].kind == 1 && !ireq) {
+					rk, ik := rq.recipes[i].kind, rq.recipes[i].kind
+					tags[fmt.Sprintf("k%d", rk)] = true
+					if rk == 40+vGenuine {
+						// the genuine authenticated response around a payload recipe
+						ik = int(rq.recipes[i].p1 % 100)
+					}
+					if ik > 1 || (ik == 1 && !ireq) {
 						nontrivial = true
 					}
 				}
@@ -481,7 +504,10 @@ func (w *worker) emit(h histSpec, calls []*callObs, kind string) {
 			if !h.nts {
 				s2c = nil
 			}
-			env := lib.L(lib.I(ref.UnixNano()), lib.I(ctx1.UnixNano()), lib.B(uid), lib.B(s2c), "0", lib.Bool(ireq), bl(rq.ke))
+			env := lib.L(lib.I(ref.UnixNano()), lib.I(ctx1.UnixNano()), lib.B(uid), lib.B(s2c), lib.Bool(scion && h.auth), lib.Bool(ireq), bl(rq.ke))
+			if scion && h.auth != rq.reqAuth {
+				tags["request-authenticator-unexpected"] = true
+			}
 			if rq.ke != nil {
 				tags["keyexchange"] = true
 			}
@@ -493,10 +519,19 @@ func (w *worker) emit(h histSpec, calls []*callObs, kind string) {
 			case ev.err != nil:
 				xos = append(xos, lib.L(lib.I(errClassT(ev.err, scion)), wire, lib.L()))
 				tags["fail"] = true
+				if errClass(ev.err) == 17 {
+					tags["spao-error"] = true
+					if nbad == 2 {
+						tags["spao-two-bad"] = true
+					}
+				}
 			default:
 				xos = append(xos, lib.L("0", wire, lib.L(lib.I(ev.rec[0].UnixNano()), lib.I(ev.rec[1].UnixNano()),
 					lib.I(ev.rec[2].UnixNano()), lib.I(ev.rec[3].UnixNano()), lib.I(int64(ev.off)))))
 				tags["accept"] = true
+				if nbad == 1 {
+					tags["spao-bad-then-accept"] = true
+				}
 				if inter {
 					tags["accept_interleaved"] = true
 				}
@@ -523,8 +558,16 @@ func (w *worker) emit(h histSpec, calls []*callObs, kind string) {
 	var tl []string
 	cfg := lib.L("0", lib.Bool(h.imode), lib.Bool(h.nts), lib.Bool(h.deadline), lib.I(addrNum(w.addrA)), "0", "0", lib.I(addrNum(w.addrA)))
 	if scion {
-		cfg = lib.L("1", lib.Bool(h.imode), "0", lib.Bool(h.deadline), lib.I(addrNum(w.addrA)), lib.U(uint64(serverIA)), lib.U(uint64(clientIA)), lib.I(addrNum(w.addrA)))
+		sia := serverIA
+		if h.sameIA {
+			sia = clientIA
+			tl = append(tl, "same-ia")
+		}
+		cfg = lib.L("1", lib.Bool(h.imode), lib.Bool(h.nts), lib.Bool(h.deadline), lib.I(addrNum(w.addrA)), lib.U(uint64(sia)), lib.U(uint64(clientIA)), lib.I(addrNum(w.addrA)))
 		tl = append(tl, "scion")
+		if h.auth {
+			tl = append(tl, "drkey")
+		}
 	}
 	if nontrivial {
 		tl = append(tl, "nt")
@@ -567,7 +610,8 @@ func histOfArgs(args string) (histSpec, bool) {
 	if len(vs) != 3 || len(vs[0].l) != 8 {
 		return histSpec{}, false
 	}
-	h := histSpec{imode: vs[0].l[1].z != 0, nts: vs[0].l[2].z != 0, deadline: vs[0].l[3].z != 0}
+	h := histSpec{imode: vs[0].l[1].z != 0, nts: vs[0].l[2].z != 0, deadline: vs[0].l[3].z != 0,
+		sameIA: vs[0].l[0].z != 0 && vs[0].l[5].z == vs[0].l[6].z}
 	for _, o := range vs[2].l {
 		if len(o.l) == 0 {
 			continue
@@ -600,6 +644,16 @@ func histOfArgs(args string) (histSpec, bool) {
 }
 
 func main() {
+	// the DRKey fetcher of /repo reads USE_MOCK_KEYS in a package init: start over with it set
+	if os.Getenv("USE_MOCK_KEYS") != "true" {
+		exe, err := os.Executable()
+		if err != nil {
+			panic(err)
+		}
+		if err := syscall.Exec(exe, os.Args, append(os.Environ(), "USE_MOCK_KEYS=true")); err != nil {
+			panic(err)
+		}
+	}
 	a := lib.ParseArgs()
 	timebase.RegisterClock(clocks.NewSystemClock(slog.New(nullHandler{}), 0))
 	_ = ntske.ServerPortIP
@@ -617,6 +671,7 @@ func main() {
 				if l[0] == "ip.hist" {
 					w.runHist(h)
 				} else {
+					h.auth = strings.HasSuffix(l[0], "auth")
 					w.runHistSCION(h, l[0])
 				}
 			}
@@ -644,13 +699,28 @@ func main() {
 			w.startSCION()
 			for j := 0; j < n; j++ {
 				w.runHist(genHist(r, j%25 == 3, j < npause))
-				if j%3 == 0 {
-					w.runHistSCION(genHistSCION(r, j%25 == 3), "scion.hist")
+				switch j % 6 {
+				case 0, 3:
+					h := genHistSCION(r, j%25 == 3, false, false)
+					w.runHistSCION(h, scionKind(h))
+				case 1, 4:
+					// the client with Auth.Enabled: packet authenticator under the DRKey host-host key
+					h := genHistSCION(r, false, true, false)
+					w.runHistSCION(h, scionKind(h))
+				case 2:
+					// NTS over SCION, without and with the packet authenticator
+					h := genHistSCION(r, false, j%12 == 2, true)
+					w.runHistSCION(h, scionKind(h))
 				}
 			}
 			if i == 0 {
 				for j := 0; j < 3; j++ {
 					w.runHistSCION(genAllFailSCION(r), "scion.allfail")
+				}
+			}
+			if i == 1 {
+				for j := 0; j < 4; j++ {
+					w.runHistSCION(genAllFailAuth(r), "scion.allfailauth")
 				}
 			}
 		}(i)
